@@ -36,14 +36,16 @@ Fixpoint find_block (bs : list ablock) (off : Z) : option ablock :=
   end.
 
 (* BTreeMap insertion; `assert_eq!(replaced, None)` on a duplicate offset *)
-Fixpoint insert_block (b : ablock) (sorted : list ablock) : res (list ablock) :=
+Fixpoint insert_sorted_block (b : ablock) (sorted : list ablock) : list ablock :=
   match sorted with
-  | [] => Ok [b]
-  | x :: r =>
-      if ab_off b =? ab_off x then Panic "ControlFlowGraph::new: duplicate block offset"
-      else if ab_off b <? ab_off x then Ok (b :: sorted)
-      else do r' <- insert_block b r ; Ok (x :: r')
+  | [] => [b]
+  | x :: r => if ab_off b <? ab_off x then b :: sorted else x :: insert_sorted_block b r
   end.
+
+Definition insert_block (b : ablock) (sorted : list ablock) : res (list ablock) :=
+  if existsb (fun x => ab_off x =? ab_off b) sorted
+  then Panic "ControlFlowGraph::new: duplicate block offset"
+  else Ok (insert_sorted_block b sorted).
 
 Fixpoint by_offset (blocks : list ablock) (acc : list ablock) : res (list ablock) :=
   match blocks with
@@ -184,3 +186,29 @@ Definition node_label (n : node) : string :=
   | NBlock off => "Offset: 0x" +++ hex_of off
   end.
 Definition show_edge (e : node * node) : string := node_label (fst e) +++ " -> " +++ node_label (snd e).
+
+(* ---------- runners ---------- *)
+Definition show_cfg (r : res cfg) : string :=
+  match r with
+  | Ok g => "ok:" +++ join ";" (map (fun b => node_label (NBlock (ab_off b))) (g_blocks g))
+            +++ "|" +++ join ";" (map show_edge (g_edges g))
+  | Err e => "err:" +++ e_kind e
+  | Panic s => "panic:" +++ s
+  end.
+Definition run_cfg_new (blocks : list ablock) : string := show_cfg (cfg_new blocks).
+
+Definition show_query (q : res query) : string :=
+  match q with
+  | Ok (QConst b) => "const:" +++ show_bool b
+  | Ok (QSolve fs) => "solve:" +++ join " " (map (fun f => "(assert " +++ smt_of_form f +++ ")") fs)
+  | Err e => "err:" +++ e_kind e
+  | Panic s => "panic:" +++ s
+  end.
+
+(* one line per edge of the initial graph: "<edge> @@ <query>" *)
+Definition run_cfg_queries (blocks : list ablock) : string :=
+  match cfg_new blocks with
+  | Ok g => join " ;; " (map (fun e => show_edge e +++ " @@ " +++ show_query (edge_query (g_blocks g) e)) (g_edges g))
+  | Err e => "err:" +++ e_kind e
+  | Panic s => "panic:" +++ s
+  end.
